@@ -329,8 +329,11 @@ def inline_new_helpers(j, ref):
             break
     # helpers without remaining references disappear from the program the rules see
     gone = set()
+    inlined_once = {n.split(' ')[1] for n in notes if n.startswith('inlined ')}
     for p in sorted(new):
-        if _refs(j, p) == 0 and p not in failed:
+        vis = fn_items[p].get('vis') or {}
+        # a new function nobody calls, or one that is part of the exported surface, stays: the who-may-X rules must see it
+        if p in inlined_once and _refs(j, p) == 0 and p not in failed and not vis.get('exported') and not vis.get('reachable'):
             gone.add(p)
     if gone:
         def keep(path):
